@@ -84,3 +84,8 @@ claim("C12",
       "Necessary conditions on every path: the MTCP frame header announces exactly the serialised length and is followed by those bytes and a probe; each step's error ends the send and reaches the PeerDisappeared report; the server skips zero-length frames and reports only parsed bundles; a BBC fragment's payload is appended only after all four checks, sequence numbers advance identically on both sides within the field width, header masks are disjoint and agree, a bundle is reported only when finished and parsed and every error exit broadcasts a failure fragment.",
       "Not decided: stream order preservation, behaviour under arbitrary loss/duplication beyond the single-fragment checks, the xz library.",
       "DESIGN.md §3 C12")
+claim("C17",
+      "wire-grammar agreement by path enumeration (15 cboring pairs + 8 TCPCLv4 message pairs with length-prefix discipline), resolved-constant agreement of dispatch tables / header codes, guarded-return rules for invalid values",
+      "For every success path of every auxiliary codec: same primitive operations, order, optional groups, announced lengths and fields on both sides; every variable-length part is written as len(X) then X and read as n then exactly n bytes, which — all other fields being fixed-width — is the static content of 'decoding consumes exactly what was encoded'; type codes agree across table, encoder and decoder and are distinct; ReadMessage re-prepends the consumed byte; invalid reason codes, wrong magic/version, unknown CLA types and malformed endpoint URIs have no accepting path without their validity test.",
+      "Not decided: equality of decoded values, endpoint URI text <-> structure bijection (regexp semantics), extreme field values.",
+      "DESIGN.md §3 C17")
